@@ -78,25 +78,34 @@ func (b *exampleBuilder) buildExampleForObjectNode(node *internalSchema.ObjectNo
 	buf.WriteRune('{')
 	children := node.Children()
 	first := true
+	shortcutKeys := map[string]bool{}
 	for i, childNode := range children {
 		ex, err := b.build(childNode)
 		if err != nil {
 			return nil, err
 		}
 
+		var k []byte
+		if ex != nil {
+			k, err = b.buildObjectKey(node.Key(i))
+			if err != nil {
+				return nil, err
+			}
+			if isTakenKey(node, node.Key(i), k, shortcutKeys) {
+				// A second equal key never counts for the key shortcut: the
+				// property can't be built.
+				ex = nil
+			}
+		}
+
 		if ex == nil {
 			if !b.bestEffort && isRequiredKey(node, node.Key(i).Key) {
-				// A required property can't be built within the recursion
-				// limit, so neither can this object: let an "or" above choose
+				// A required property can't be built (within the recursion
+				// limit), so neither can this object: let an "or" above choose
 				// another alternative.
 				return nil, nil
 			}
 			continue
-		}
-
-		k, err := b.buildObjectKey(node.Key(i))
-		if err != nil {
-			return nil, err
 		}
 
 		// A skipped child must not leave a dangling separator behind.
@@ -134,6 +143,25 @@ func isRequiredKey(node *internalSchema.ObjectNode, key string) bool {
 		}
 	}
 	return false
+}
+
+// isTakenKey reports whether the object has the key of the example already. The key
+// of a key shortcut is the example of the key type: it may be the key of a named
+// property, or the example of an earlier key shortcut.
+func isTakenKey(
+	node *internalSchema.ObjectNode,
+	key internalSchema.ObjectNodeKey,
+	k []byte,
+	shortcutKeys map[string]bool,
+) bool {
+	if !key.IsShortcut {
+		return false
+	}
+	name := bytes.Bytes(`"` + string(k) + `"`).Unquote().String()
+	_, named := node.Child(name, false)
+	taken := named || shortcutKeys[name]
+	shortcutKeys[name] = true
+	return taken
 }
 
 func (b *exampleBuilder) buildObjectKey(k internalSchema.ObjectNodeKey) ([]byte, error) {
